@@ -27,8 +27,8 @@ pub fn integral_bisection_search<K: Num + Clone, T: Num + PartialOrd>(
             return None; // f found not monotone on interval
         } else if f(&lb) == z {
             return Some(lb);
-        } else if f(&ub) == z || (lb.clone() + K::one()) == ub {
-            return Some(ub); // found or no more integers between
+        } else if (lb.clone() + K::one()) == ub {
+            return Some(ub); // no more integers between: f(lb) < z <= f(ub)
         } else if f(&mid) >= z {
             ub = mid;
         } else {
